@@ -68,7 +68,7 @@ impl Engine for St {
             "C12" => vec![p("concat.xz", 40000, 1_000_000), p("concat.lzip", 20000, 500_000)],
             "C13" => vec![p("determ.repeat", 12000, 400_000), p("determ.partition", 12000, 400_000)],
             "C16" => vec![p("exact", 80000, 3_000_000)],
-            "C15" => vec![p("oob.window", 160, 3000), p("oob.encode", 5000, 300_000), p("oob.decode", 25000, 2_000_000)],
+            "C15" => vec![p("oob.window", 160, 3000), p("oob.encode", 5000, 300_000), p("oob.decode", 25000, 2_000_000), p("oob.direct_bits", 20000, 1_000_000), p("oob.chunkend", 3000, 100_000)],
             "C17" => vec![p("mem.encoder", 1200, 20000), p("mem.decoder.lzma", 4000, 60000), p("mem.decoder.lzma2", 2000, 30000), p("mem.limit", 8000, 100000)],
             "C19" => vec![p("misconfig", 30000, 600_000)],
             "C18" => vec![p("sizes", 40000, 1_500_000)],
@@ -158,7 +158,7 @@ impl Engine for St {
             },
             "C15" => PropMeta {
                 level: "exploration",
-                rule: "monitors over workloads that reach the unsafe blocks of the `optimization` feature. oob.encode: formats x options with dictionaries 4096-65536, inputs of 0-24 bytes / around the dictionary size / 270-900 KB (the window moves) / long-distance repeats at distance dict-1, dict, dict+1, dict-273, 25% with the position wrap (SIMD renormalisation over the aligned tables). oob.decode: valid LZMA/LZMA2/XZ(check none) streams with 1-4 faults inside the compressed payload and chunk headers so that the range decoder runs off the end of its 64 KiB buffer inside direct-bit runs (probes direct_bits_asm / direct_bits_portable / direct_bits_past_buffer_end count it). Monitors: hook H5 shadow assertions (a violated precondition of an unsafe block panics with VERIF-OOB before the access and is the only monitor that sees the inline assembly's loads); thorough tier: the same binary built with AddressSanitizer (a report kills the worker and is attributed to the seed) and tiny encoder cases under Miri (the assembly cannot run there). Only out-of-bounds findings are reported by this check. Non-trivial: non-empty input / at least one fault applied.".into(),
+                rule: "monitors over workloads that reach the unsafe blocks of the `optimization` feature. oob.encode: formats x options with dictionaries 4096-65536, inputs of 0-24 bytes / around the dictionary size / 270-900 KB (the window moves) / long-distance repeats at distance dict-1, dict, dict+1, dict-273, 25% with the position wrap (SIMD renormalisation over the aligned tables). oob.decode: valid LZMA/LZMA2/XZ(check none) streams with 1-4 faults inside the compressed payload and chunk headers so that the range decoder runs off the end of its 64 KiB buffer inside direct-bit runs (probes direct_bits_asm / direct_bits_portable / direct_bits_past_buffer_end count it). oob.direct_bits: the direct-bit reader itself (seam verif::direct_bits_buffer) at every position in the last seven bytes of a buffer x every bit count 1..=26 x ranges with and without a pending normalisation; oob.chunkend: a valid LZMA2 stream rich in far matches whose chunk is cut to up to 96 (400 thorough) compressed sizes, so that the chunk buffer ends inside symbols and direct-bit runs; both with the chunk buffer directly in front of a guard page, the only monitor that sees a load made by the inline assembly. Monitors: guard pages (simulator's allocator: library allocations >= 4 KiB end at a PROT_NONE page; a stray access kills the worker and is attributed to the case); hook H5 shadow assertions (a violated precondition of an unsafe block panics with VERIF-OOB before the access and is the only monitor that sees the inline assembly's loads); thorough tier: the same binary built with AddressSanitizer (a report kills the worker and is attributed to the seed) and tiny encoder cases under Miri (the assembly cannot run there). Only out-of-bounds findings are reported by this check. Non-trivial: non-empty input / at least one fault applied.".into(),
                 assumptions: vec!["the shadow assertions restate the preconditions correctly (they were written from the unsafe blocks' own SAFETY comments)".into(), "ASan does not see loads inside asm!; Miri cannot execute asm!".into()],
                 real: real.clone(), stubs: stubs.clone(), exhaustive_part: None,
             },
